@@ -47,7 +47,10 @@ fn main() {
 }
 
 fn run_cli() -> Result<(), ScriptError> {
-    let args: Vec<String> = env::args().collect();
+    // (env::args panics on an argument that is not valid unicode)
+    let args: Vec<String> = env::args_os()
+        .map(|argument| argument.to_string_lossy().into_owned())
+        .collect();
 
     if args.len() < 2 {
         run_repl()
